@@ -196,9 +196,20 @@ def conc_workload(tier, seed, path):
     eps = []
     for r in range(runs):
         nth = rng.choice([2, 2, 4, 8, 16])
-        pool = _mixed(seed * 1000 + r, 3)
+        # every thread first runs one episode of every component (after a common start), so that all threads are inside the
+        # same library functions at the same time; then its share of a shuffled pool
+        for t in range(nth):
+            sd = seed * 1000 + r * 17 + t
+            common = list(dec_gen.tecmp(sd, 1, 't')) + list(obj_gen.builds(layout_table(), sd, 'quick', 'b'))[:3] + \
+                list(st_gen.gen(sd, 1, 40, 'u')) + list(enc_gen.gen(sd, 1, 'e', big=False)) + list(val_gen.gen(sd, 1, 'v', 'packet'))
+            for e in common:
+                e = dict(e)
+                e['run'], e['thread'] = r, t
+                e['id'] = 'r%d.t%d.c.%s' % (r, t, e['id'])
+                eps.append(e)
+        pool = _mixed(seed * 1000 + r, 2)
         rng.shuffle(pool)
-        for k, e in enumerate(pool[:nth * 3]):
+        for k, e in enumerate(pool[:nth * 2]):
             e = dict(e)
             e['run'], e['thread'] = r, k % nth
             e['id'] = 'r%d.t%d.%s' % (r, k % nth, e['id'])
